@@ -1,16 +1,19 @@
 /-
 Model M13 (part) — restore of one file's contents and destination path joining
-(`crates/core/src/commands/restore.rs`: `RestorePlan::add_file`, `restore_contents`, the path check added to
-`collect_and_prepare` by fix 9ba0b0c; `crates/core/src/backend/local_destination.rs`: `path`, `get_matching_file`,
-`set_length`, `write_at`).  Import-free, executable.
+(`crates/core/src/commands/restore.rs`: `RestorePlan::add_file`, `restore_contents` as repaired by the sparse fix
+(`file_truncate`), the path check added to `collect_and_prepare` by fix 9ba0b0c;
+`crates/core/src/backend/local_destination.rs`: `path`, `get_matching_file`, `set_length`, `write_at`).  Import-free,
+executable.  The merge-walk and the pack bookkeeping of `RestorePlan` are in `Model/RestoreWalk.lean`.
 
 * `matchingFile`  — `get_matching_file(name, size)`: the existing file iff it is a regular file of exactly `size` bytes.
 * `restoreFile`   — `add_file` + `restore_contents` for one file:
     - size 0 and an empty file exists ⇒ `Existing`, nothing is done;
     - `!verify_existing` and a matching file whose mtime equals the node's ⇒ `Existing`, file accepted unread;
     - otherwise every blob is compared with the bytes at its position in the matching file (`blob_matches_reader`,
-      hash equality = byte equality); the file is `set_length` to the size (truncate / zero-extend, old bytes stay) and
-      every non-matching blob is written at its offset — **unless `sparse` and the blob is all zero, then nothing is
+      hash equality = byte equality).  `file_truncate[file_idx] = open_file.is_none()` (`fresh`): when there is no
+      matching file the destination is `set_length(0)` and then `set_length(size)` (all zeros, whatever was there);
+      a matching file (same size) is only `set_length(size)` (old bytes stay).  Every non-matching blob is written at
+      its offset — **unless `sparse`, the file was truncated (`fresh`) and the blob is all zero, then nothing is
       written there** (`seg`).  Writes are to disjoint ranges covering the file, so the result is the concatenation
       of the per-blob segments (`segs`), whatever the thread order.
 * `comps`/`joinPath`/`resolve` — `Path::components`, `Path::join` (an absolute item replaces the base) and the lexical
@@ -40,14 +43,18 @@ def blobMatches (matching : Option Bytes) (pos : Nat) (b : Bytes) : Bool :=
   | none => false
 
 /-- bytes at `[pos, pos + |b|)` after the restore -/
-def seg (o : Opts) (base : Bytes) (matching : Option Bytes) (pos : Nat) (b : Bytes) : Bytes :=
+def seg (o : Opts) (fresh : Bool) (base : Bytes) (matching : Option Bytes) (pos : Nat) (b : Bytes) : Bytes :=
   if blobMatches matching pos b then b
-  else if o.sparse && allZero b then (base.drop pos).take b.length
+  else if o.sparse && fresh && allZero b then (base.drop pos).take b.length
   else b
 
-def segs (o : Opts) (base : Bytes) (matching : Option Bytes) : Nat → List Bytes → List Bytes
+def segs (o : Opts) (fresh : Bool) (base : Bytes) (matching : Option Bytes) : Nat → List Bytes → List Bytes
   | _, [] => []
-  | pos, b :: rest => seg o base matching pos b :: segs o base matching (pos + b.length) rest
+  | pos, b :: rest => seg o fresh base matching pos b :: segs o fresh base matching (pos + b.length) rest
+
+/-- the file after the allocation step of `restore_contents`: truncated first iff `fresh` -/
+def allocate (old : Bytes) (fresh : Bool) (size : Nat) : Bytes :=
+  if fresh then setLength (setLength old 0) size else setLength old size
 
 /-- final content of the destination file (`none` = no file); `old` = what was there, `mtimeEq` = its mtime equals
 the snapshot node's -/
@@ -56,7 +63,9 @@ def restoreFile (o : Opts) (old : Option Bytes) (mtimeEq : Bool) (blobs : List B
   let matching := matchingFile old size
   if size = 0 ∧ matching.isSome then old
   else if o.verify = false ∧ matching.isSome ∧ mtimeEq = true then old
-  else some (segs o (setLength (old.getD []) size) matching 0 blobs).flatten
+  else
+    let fresh := matching.isNone
+    some (segs o fresh (allocate (old.getD []) fresh size) matching 0 blobs).flatten
 
 /-- fixed-size chunker (`chunker/fixed_size.rs`), used by the correspondence channel to control the blobs -/
 def chunksOf (n : Nat) (bs : Bytes) : List Bytes :=
